@@ -39,7 +39,7 @@ VARS = ["Tgas", "T32", "invT", "Te", "lnTe", "invTe", "sqrTgas", "Hnuclei"]
 USER_COMMON = ["user_crate", "user_Av"]
 USER_VARS = [("ulog", "log10(Tgas)"), ("uscale", "user_crate*1.0e17")]
 FUNCS1 = ["exp", "log", "log10", "sqrt", "abs", "sin", "cos", "tan", "atan", "dexp"]
-ABUND = [("H", "H"), ("D", "D"), ("C", "C"), ("O", "O"), ("Hp", "H+"), ("Hm", "H-"), ("Cp", "C+")]   # idx suffix -> species
+ABUND = [("H", "H"), ("D", "D"), ("C", "C"), ("O", "O"), ("Hp", "H+"), ("Hm", "H-"), ("Cp", "C+"), ("P", "P"), ("Pp", "P+"), ("N", "N"), ("S", "S")]   # idx suffix -> species
 
 
 class G:
@@ -166,7 +166,8 @@ def gen_cases(tier):
         for _ in range(4):
             vals.append({"Tgas": 10 ** r.uniform(1, 4), "user_crate": 10 ** r.uniform(-17, -15), "user_Av": r.uniform(0.1, 10), "x1d2": 1.25, "k2d3": 0.75,
                          "y": {"H": r.uniform(0.1, 2), "D": r.uniform(0.1, 2), "C": r.uniform(0.1, 2), "O": r.uniform(0.1, 2), "H+": r.uniform(0.1, 2),
-                               "H-": r.uniform(0.1, 2), "C+": r.uniform(0.1, 2), "H2": r.uniform(0.1, 2), "CO": r.uniform(0.1, 2), "H2+": r.uniform(0.1, 2)}})
+                               "H-": r.uniform(0.1, 2), "C+": r.uniform(0.1, 2), "H2": r.uniform(0.1, 2), "CO": r.uniform(0.1, 2), "H2+": r.uniform(0.1, 2),
+                               "P": r.uniform(0.1, 2), "P+": r.uniform(0.1, 2), "N": r.uniform(0.1, 2), "S": r.uniform(0.1, 2)}})
         cases.append({"kind": "generated", "exprs": exprs, "vals": vals})
     cases.append({"kind": "var_probe", "vars": [("uf", "user_crate*1d17"), ("up", "T32**2")], "exprs": ["1.0d-10*uf", "2.0d-10*up"]})
     cases.append({"kind": "bundled", "file": "primordial", "vals": [{"Tgas": t} for t in (30.0, 300.0, 5e3, 2e4)]})
@@ -175,8 +176,8 @@ def gen_cases(tier):
     return cases
 
 
-SPECIES = ["H", "D", "C", "O", "H+", "H-", "C+", "H2", "CO", "H2+"]
-IDXNAME = {"H": "H", "D": "D", "C": "C", "O": "O", "H+": "Hp", "H-": "Hm", "C+": "Cp", "H2": "H2", "CO": "CO", "H2+": "H2p"}
+SPECIES = ["H", "D", "C", "O", "H+", "H-", "C+", "H2", "CO", "H2+", "P", "P+", "N", "S"]
+IDXNAME = {"H": "H", "D": "D", "C": "C", "O": "O", "H+": "Hp", "H-": "Hm", "C+": "Cp", "H2": "H2", "CO": "CO", "H2+": "H2p", "P": "P", "P+": "Pp", "N": "N", "S": "S"}
 
 
 def fortran_program(exprs: list[str], vals: list[dict], extra_vars: list[str]) -> str:
@@ -305,7 +306,7 @@ def run_case(case, ctx):
     extra_vars = ["x1d2", "k2d3"]
     header = ["@common:" + ",".join(USER_COMMON + extra_vars)] + [f"@var:{v} = {e}" for v, e in USER_VARS] + ["@format:idx,R,R,P,Tmin,Tmax,rate"]
     # structural reactions so that every species referenced through n(idx_) is part of the network
-    pad = [("H", "D"), ("C", "O"), ("H+", "H-"), ("C+", "H"), ("H2", "CO"), ("H2+", "H")]
+    pad = [("H", "D"), ("C", "O"), ("H+", "H-"), ("C+", "H"), ("H2", "CO"), ("H2+", "H"), ("P", "P+"), ("N", "S")]
 
     def build(active):
         lines = list(header)
